@@ -3,6 +3,7 @@ import Cbor.Model.Builder
 import Cbor.Model.Serialize
 import Cbor.Model.StreamClient
 import Cbor.Drv.GenOps
+import Cbor.Model.Heap
 /-! Driver operations over the hand-written value-level model (same protocol as harness/tree_ops.c). -/
 namespace Drv
 open Spec Model
@@ -120,6 +121,13 @@ def modelOp (L : Nat) (ws : List String) : Option String :=
   | ["SERA", t, m, k] => do some (opSERA (← parseTree t) (← m.toNat?) (← k.toNat?))
   | ["ROUND", t] => do some (opROUND (← parseTree t) L)
   | ["SIZES", t] => do some s!"{sizeS (← parseSkel t)}"
+  | ["GROWAT", kind, cap] => do
+      -- one more entry into a full indefinite container of capacity `cap`, the allocator refusing: the growth rule of the heap model
+      let cap ← cap.toNat?
+      let elt ← (if kind == "m" then some 16 else if kind == "a" || kind == "b" || kind == "s" then some 8 else none)
+      let r := Heap.grow (fun _ => false) {} elt cap
+      let newcap := if cap == 0 then 1 else 2 * cap
+      some (if r.2.reqs == 0 then "false reqs=0 last=- rc=1" else s!"false reqs={r.2.reqs} last={elt * newcap} rc=1")
   | ["LN", h, k] => do
       let pre ← (if h == "-" then some #[] else parseHex h); let k ← k.toNat?
       let total := if k == 0 then 1 else if k == 1 then 256 else 65536
